@@ -3,6 +3,7 @@ package props
 import (
 	"bytes"
 
+	"verif/foreign"
 	"verif/inspect"
 	"verif/sim"
 	"verif/world"
@@ -63,7 +64,22 @@ func (c01) Gen(r *sim.Rand, c *sim.Case, tier string) {
 		g.WellFormedMath = true // finding math-raw-innerxml (lane B)
 	}
 	n := r.Range(3, 40)
-	ops := g.DocOps(0, n)
+	var ops []sim.Op
+	switch x := r.Intn(10); {
+	case x < 2: // rendered documents of one cached template, extended independently
+		g.HFOncePerKind = false
+		c.Cfg["template"] = 1
+		c.Tasks = [][]sim.Op{templateScenario(r, g)}
+		c.Order = orderPolicy(r)
+		c.OrderSeed = r.Uint64()
+		return
+	case x < 4: // a package from another producer (own content-type conventions), then extended
+		ops = append(ops, sim.Op{K: "foreign", I: []int{int(r.Uint64() >> 40), int(r.Uint64()) & foreign.FAllBits, r.Intn(3)}})
+		c.Cfg["foreign"] = 1
+		g.Fam |= world.FImage
+		n = r.Range(2, 15)
+	}
+	ops = append(ops, g.DocOps(0, n)...)
 	ops = sprinkleSaves(r, ops, 0, r.Range(3, 12), 0.35, 0.1)
 	if r.Chance(0.3) { // interfering second document that uses lists
 		g2 := world.NewGen(r.Fork())
